@@ -42,8 +42,9 @@ AllowedField(site, op, exported, ctx) == exported \/ op = "literal" \/ (site = "
 VARIABLE a
 SymCases == {[fam |-> "sym", kind |-> k, exported |-> e, site |-> s, ctx |-> c, imp |-> i] :
                 k \in SymKinds, e \in BOOLEAN, s \in Sites, c \in ValueCtx \cup TypeCtx \cup EnumCtx, i \in Imports}
-FieldCases == {[fam |-> "field", exported |-> e, site |-> s, op |-> o, ctx |-> c, imp |-> i] :
-                e \in BOOLEAN, s \in FieldSites, o \in FieldOps, c \in FieldCtx, i \in Imports}
+(* twin: the struct type also has a METHOD with the field's name (fields and methods share the selector syntax) *)
+FieldCases == {[fam |-> "field", exported |-> e, site |-> s, op |-> o, ctx |-> c, imp |-> i, twin |-> t] :
+                e \in BOOLEAN, s \in FieldSites, o \in FieldOps, c \in FieldCtx, i \in Imports, t \in BOOLEAN}
 Init == a \in {x \in SymCases : CtxOK(x.kind, x.ctx) /\ (x.site = "own" => x.imp = "direct")}
              \cup {x \in FieldCases : FieldOK(x.site, x.op, x.ctx) /\ (x.site # "cross" => x.imp = "direct")}
 Next == UNCHANGED a
@@ -54,5 +55,6 @@ B2S(b) == IF b THEN "pub" ELSE "priv"
 Key == IF a.fam = "sym"
        THEN "C12|sym|" \o a.kind \o "|" \o B2S(a.exported) \o "|" \o a.site \o "|" \o a.ctx \o "|" \o a.imp
        ELSE "C12|field|" \o B2S(a.exported) \o "|" \o a.site \o "|" \o a.op \o "|" \o a.ctx \o "|" \o a.imp
+            \o (IF a.twin THEN "|method-of-same-name" ELSE "")
 Emit == PrintT("@@CASE " \o ToJson([c |-> a, allowed |-> Allowed, key |-> Key]))
 =============================================================================
